@@ -299,6 +299,8 @@ class Interp(object):
                 return v.attrs[attr]
             if v.cls == 'Constant' and attr in ('n', 's') and 'value' in v.attrs:
                 return v.attrs['value']  # ast_compat adds n/s aliases to Constant
+            if attr == '_fields' and v.qual is None and getattr(ast, v.cls, None) is not None:
+                return tuple(getattr(ast, v.cls)._fields)
             # methods of repository classes
             if self.model is not None:
                 for cq in ([v.qual] if v.qual else self._classes_named(v.cls)):
@@ -320,6 +322,8 @@ class Interp(object):
         if isinstance(v, tuple) and len(v) == 3 and v[0] == 'super' and self.model is not None:
             fi = self.model.method(v[2], attr)
             if fi is None:
+                if attr == '__init__':
+                    return Closure(ast.parse('lambda *a, **k: None', mode='eval').body, {}, self)  # object.__init__
                 return TOP
             return Closure(fi.node, {}, self, self_obj=v[1], cls=[k for k in self.model.mro(v[2]) if self.model.funcs.get(k + '.' + attr) is fi][0])
         if isinstance(v, tuple) and attr in ('major', 'minor') and len(v) >= 2:
@@ -573,6 +577,12 @@ class Interp(object):
             if isinstance(o, Obj):
                 o.attrs[target.attr] = value
                 self.trace and self.events.append(('setattr', o, target.attr, value))
+        elif isinstance(target, ast.Subscript) and isinstance(target.slice, ast.Slice):
+            o = self.ev(target.value, env)
+            if isinstance(o, list) and target.slice.lower is None and target.slice.upper is None and target.slice.step is None and value is not TOP:
+                o[:] = list(value)
+            else:
+                raise _Abort('slice assignment')
         elif isinstance(target, ast.Subscript):
             o = self.ev(target.value, env)
             k = self.ev(target.slice, env)
@@ -628,6 +638,10 @@ class Interp(object):
                 return self.call_closure(fv, args, kwargs)
             if isinstance(fv, ClassRef):
                 return self.construct(fv, args, kwargs)
+            if isinstance(fv, Obj):
+                call = self.getattr(fv, '__call__')
+                if isinstance(call, Closure):
+                    return self.call_closure(call, args, kwargs)
             if fv in (int, float, complex, str, bytes, bool, tuple, list, dict, set):
                 if any(a is TOP or isinstance(a, Obj) for a in args):
                     return TOP
@@ -855,6 +869,20 @@ class Interp(object):
                 return args[2]
             if len(args) == 3 and args[0].closed:
                 return args[2]
+        return TOP
+
+    def builtin_setattr(self, args, kwargs, e, env):
+        o, name, value = args
+        if isinstance(o, Obj) and isinstance(name, str):
+            o.attrs[name] = value
+            return None
+        return TOP
+
+    def builtin_delattr(self, args, kwargs, e, env):
+        o, name = args
+        if isinstance(o, Obj) and isinstance(name, str):
+            o.attrs.pop(name, None)
+            return None
         return TOP
 
     def builtin_min(self, args, kwargs, e, env):
